@@ -3,6 +3,7 @@
 package corerad
 
 import (
+	"bytes"
 	"errors"
 	"fmt"
 	"net/netip"
@@ -13,6 +14,7 @@ import (
 	"time"
 
 	"github.com/mdlayher/corerad/internal/netstate"
+	"github.com/mdlayher/corerad/internal/plugin"
 	"github.com/mdlayher/corerad/verifrt/ev"
 	"github.com/mdlayher/corerad/verifrt/sdnotify"
 	"github.com/mdlayher/corerad/verifrt/vsched"
@@ -59,7 +61,17 @@ func c08Scenario(c c08Case) *vsched.Scenario {
 		Name:    c.Name,
 		Horizon: 5 * time.Minute,
 		Setup: func(x *vsched.Exec) {
-			a = newAdvWorld(staticCfg("eth0", 4*time.Second, 4*time.Second), true, c.Script == "after-reinit")
+			// Every header field at a non-default value (the final RA equals the normal RA in
+			// all of them); preference high for TERM/HUP and low for INT.
+			cfg := staticCfg("eth0", 4*time.Second, 4*time.Second)
+			cfg.Managed, cfg.OtherConfig, cfg.HopLimit = true, true, 33
+			cfg.ReachableTime, cfg.RetransmitTimer = 30*time.Second, 2*time.Second
+			cfg.Preference = ndp.High
+			if c.Sig == "INT" {
+				cfg.Preference = ndp.Low
+			}
+			cfg.Plugins = []plugin.Plugin{plugin.NewMTU(1480), &plugin.DNSSL{Lifetime: time.Hour, DomainNames: []string{"example.com"}}}
+			a = newAdvWorld(cfg, true, c.Script == "after-reinit")
 			a.latency = c.Latency
 			stop := func() {
 				a.term.set(c08Sig(c.Sig))
@@ -304,7 +316,9 @@ func c08Check(c c08Case, x *vsched.Exec, a *advWorld, stopAt time.Duration) (out
 		if fin != nil && normal != nil {
 			f := *fin.RA
 			f.RouterLifetime = normal.RA.RouterLifetime
-			if fmt.Sprintf("%+v", f) != fmt.Sprintf("%+v", *normal.RA) {
+			fb, ferr := ndp.MarshalMessage(&f)
+			nb, nerr := ndp.MarshalMessage(normal.RA)
+			if ferr != nil || nerr != nil || !bytes.Equal(fb, nb) {
 				bad("C08:final-ra-content", "final RA %+v differs from the normal RA %+v in more than the lifetime", *fin.RA, *normal.RA)
 			}
 		}
